@@ -19,9 +19,11 @@ type c05tok string
 
 // build a fresh instance from reg/hdr/name ops; handlers are free of shared mutable state
 func c05build(ops []*Sx) (*flamego.Flame, bool) {
+	c05pairs := []string{"withOptional", "true", "x", "1"} // one slice per instance, shared by all its requests
 	f := flamego.NewWithLogger(io.Discard)
 	flamego.SetEnv(flamego.EnvTypeProd)
 	f.Use(flamego.Recovery()) // every third route panics after answering: Recovery formats stacks concurrently
+	f.Use(flamego.Logger())   // the request logger, writing to the discarded application logger
 	// three separate Use calls leave spare capacity in the middleware slice
 	f.Use(func(c flamego.Context) { c.Map(c05tok(c.Request().Header.Get("X-Tok"))) })
 	f.Use(func(c flamego.Context) { c.Next() })
@@ -64,7 +66,7 @@ func c05build(ops []*Sx) (*flamego.Flame, bool) {
 				url := ""
 				func() {
 					defer func() { _ = recover() }()
-					url = c.URLPath("n0", "x", "1")
+					url = c.URLPath("n0", c05pairs...) // one slice of pairs shared by all requests: URLPath only reads it
 				}()
 				body := fmt.Sprintf("%s tok=%s svc=%d url=%s", sb.String(), t, s.M1(), url)
 				if i%3 == 2 {
